@@ -302,3 +302,14 @@ Definition threads_of (l : list (str * list tev)) : list thread :=
 
 (* what the theorems ask of a thread's name and recorded events *)
 Definition input_ok (p : str * list tev) : Prop := text_ok (fst p) /\ Forall ev_ok (snd p).
+
+(* -------------------------------------------------------- the recorder's map *)
+(* the events recorded under thread id [id], in recording order *)
+Definition recs_of (id : N) (ops : list rop) : list tev :=
+  flat_map (fun o => match o with RRec i e => if i =? id then [e] else [] | _ => [] end) ops.
+Definition rec_count (ops : list rop) : nat :=
+  length (filter (fun o => match o with RRec _ _ => true | _ => false end) ops).
+(* everything stored in the map *)
+Definition reg_all (r : reg) : list tev := flat_map (fun en => concat (re_events en)) r.
+Definition reg_evs (r : reg) (id : N) : list tev := concat (reg_get r id).
+Definition op_id (o : rop) : N := match o with RAttach i | RName i _ | RRec i _ => i end.
